@@ -324,6 +324,61 @@ impl<'a> Judge<'a> {
     }
 }
 
+/// corpus for the Miri slice: "<decoder>\t<hex>" lines - intact encodings, truncations, hostile
+/// count fields and tag bytes of every seed encoding
+pub async fn dump_corpus(seed: u64, path: &str) -> usize {
+    let mut crng = Rng::new(seed ^ 0xC10);
+    let corpus = Corpus::build(&mut crng, &Params::with_gp(100), 8).await;
+    let seeds = seeds(&mut crng, &corpus);
+    let mut out = String::new();
+    let mut n = 0;
+    let mut push = |dec: Dec, bytes: &[u8], out: &mut String| {
+        out.push_str(dec.name());
+        out.push('\t');
+        out.push_str(&hex::encode(bytes));
+        out.push('\n');
+    };
+    for s in &seeds {
+        // keep the interpreter's work bounded: big blocks only intact and cut
+        let small = s.bytes.len() <= 1200;
+        push(s.dec, &s.bytes, &mut out);
+        n += 1;
+        let len = s.bytes.len();
+        let mut cuts = vec![0, 1, len / 4, len / 2, len.saturating_sub(1)];
+        cuts.extend(s.counts.iter().map(|c| c + 2));
+        cuts.sort();
+        cuts.dedup();
+        for c in cuts.into_iter().filter(|c| *c < len).take(if small { 9 } else { 3 }) {
+            push(s.dec, &s.bytes[..c], &mut out);
+            n += 1;
+        }
+        if small {
+            for off in s.counts.iter().take(4) {
+                for val in [0u32, 1, 0xffff, 0xffff_ffff] {
+                    let mut b = s.bytes.clone();
+                    if off + 4 <= b.len() {
+                        b[*off..*off + 4].copy_from_slice(&val.to_be_bytes());
+                        push(s.dec, &b, &mut out);
+                        n += 1;
+                    }
+                }
+            }
+            for off in s.tags.iter().take(3) {
+                for val in [0u8, 9, 255] {
+                    let mut b = s.bytes.clone();
+                    if *off < b.len() {
+                        b[*off] = val;
+                        push(s.dec, &b, &mut out);
+                        n += 1;
+                    }
+                }
+            }
+        }
+    }
+    std::fs::write(path, out).expect("write corpus");
+    n
+}
+
 pub async fn run(ctx: &Ctx, rep: &mut Report) {
     if let Some(path) = &ctx.replay {
         replay(path, rep);
